@@ -329,6 +329,7 @@ def build(tier):
         f = conf_fns()
         fns = [f[top]] + [f[d] for d in deps] + [f['pred_c' if top.endswith('_c') else 'pred'], f['name']]
         targets.append(T(fns[0].cname, fns, solver=None))
+    targets += clone_targets()
     return {
         'targets': targets, 'vcs': [],
         'decided': [
@@ -498,4 +499,143 @@ def replay(rp):
         out['runs'].append({'obligation': fo['id'], 'args': args, 'exit': rc, 'output': so.strip(), 'sanitizer': ub[:2]})
         if rc == 1 or ub:
             out['reproduced'] = True
+    return out
+
+
+# ----------------------------------------------------------------------------- clones of objects with owned sub-objects
+HC = 'specs/C19/clone.h'
+UP = r'^std::unique_ptr<nano::(lsearch0_t|lsearchk_t|tuner_t|solver_t|splitter_t|function_t|wlearner_t)'
+OWNED = r'nano::(lsearch0_t|lsearchk_t|tuner_t|splitter_t|function_t|wlearner_t)'
+CLONE_TYPES = [(UP + r'|^(nano::)?r(lsearch0|lsearchk|tuner|splitter|function|wlearner)_t$', 'struct nv_obj*'),
+               (r'^' + OWNED + r'$', 'struct nv_obj'),
+               (r'^(nano::string_t|std::string|std::basic_string<char>)$|^(std::)?(string_view|basic_string_view<char>)$', 'struct nv_str'),
+               (r'^(nano::)?factory_t<nano::\w+>$', 'struct nv_factory'),
+               (r'^nano::(typed_t|configurable_t)$|^(nano::)?clonable_t<', 'struct nv_base'), (r'^nano::solver_type$', 'uint8_t'), (r'^nano::solver_t$', 'struct nv_solver')]
+CLONE_CALLS = [(r'^move\|', '{0}'),     # std::move of a unique_ptr: the pointer value (the moved-from pointer is not read again)
+               (r'^operator=\|.*unique_ptr', '({0} = {1})'), (r'^operator->\|.*unique_ptr', '{0}'), (r'^operator\*\|.*unique_ptr', '(*{0})'),
+               (r'^all\|factory_t<', 'nv_the_factory'),
+               # implicit copy constructors of the bases (C++ semantics: member-wise), on the flattened model
+               (r'^ctor\|nano::typed_t\|void \(const nano::typed_t &\)', '(self->m_type_id = {0}.m_type_id)'),
+               (r'^ctor\|nano::configurable_t\|void \(const nano::configurable_t &\)', '(self->m_parameters = {0}.m_parameters)'),
+               (r'^ctor\|nano::clonable_t<', '@drop')]
+CLONE_MEMBERS = [(r'^clone\|nano::clonable_t<' + OWNED + r'>|^clone\|' + OWNED + r'\b', 'nv_obj_clone'), (r'^get\|nano::factory_t<', 'nv_factory_get({0})'),
+                 (r'^operator basic_string_view\|', '{*self}'), (r'^operator bool\|std::unique_ptr', '({*self} != NULL)'),
+                 (r'^type_id\|' + OWNED + r'|^type_id\|nano::typed_t', '{*self}.m_type_id'), (r'^get\|std::unique_ptr', '{*self}')]
+
+
+def solver_fns():
+    S = 'src/solver.cpp'
+    ov = hooks.member_overload_hook([
+        (r'^lsearch0\|nano::solver_t\|\(\)\|', 'solver_get_lsearch0'), (r'^lsearchk\|nano::solver_t\|\(\)\|', 'solver_get_lsearchk'),
+        (r'^type\|nano::solver_t\|\(\)\|', 'solver_get_type'),
+        (r'^lsearch0\|nano::solver_t\|\(std::basic_string<char>\)\|', 'solver_lsearch0_id!'),
+        (r'^lsearchk\|nano::solver_t\|\(std::basic_string<char>\)\|', 'solver_lsearchk_id!'),
+        (r'^lsearch0\|nano::solver_t\|\(nano::lsearch0_t\)\|', 'solver_lsearch0_obj!'),
+        (r'^lsearchk\|nano::solver_t\|\(nano::lsearchk_t\)\|', 'solver_lsearchk_obj!')])
+    c = dict(types=CLONE_TYPES, calls=CLONE_CALLS, members=CLONE_MEMBERS, hooks=[ov], self_struct='struct nv_solver', uf_float=False)
+    npar = lambda k, t=None: (lambda d: len(astload.param_types(d)) == k and (t is None or t in astload.param_types(d)[0]))
+    f = {
+        'copy': Fn('solver_copy', S, 'solver_t', flt='nano::solver_t::solver_t', select=lambda d: astload.param_types(d) == ['const nano::solver_t &'], **c),
+        'get0': Fn('solver_get_lsearch0', S, 'lsearch0', flt='nano::solver_t::lsearch0', select=npar(0), **c),
+        'getk': Fn('solver_get_lsearchk', S, 'lsearchk', flt='nano::solver_t::lsearchk', select=npar(0), **c),
+        'gett': Fn('solver_get_type', S, 'type', flt='nano::solver_t::type', select=npar(0), **c),
+        'id0': Fn('solver_lsearch0_id', S, 'lsearch0', flt='nano::solver_t::lsearch0', select=npar(1, 'string_t'), **c),
+        'idk': Fn('solver_lsearchk_id', S, 'lsearchk', flt='nano::solver_t::lsearchk', select=npar(1, 'string_t'), **c),
+        'obj0': Fn('solver_lsearch0_obj', S, 'lsearch0', flt='nano::solver_t::lsearch0', select=npar(1, 'lsearch0_t'), **c),
+        'objk': Fn('solver_lsearchk_obj', S, 'lsearchk', flt='nano::solver_t::lsearchk', select=npar(1, 'lsearchk_t'), **c),
+    }
+    return f
+
+
+def mlparams_fns():
+    S = 'src/machine/params.cpp'
+    UPT = r'std::unique_ptr<nano::%s_t[^)]*'
+    table = []
+    for m in ('tuner', 'solver', 'splitter'):
+        table += [(r'^%s\|nano::ml::params_t\|\(nano::%s_t\)\|' % (m, m), f'mlparams_{m}_obj!'),
+                  (r'^%s\|nano::ml::params_t\|\(%s\)\|(xvalue|prvalue)$' % (m, UPT % m), f'mlparams_{m}_move!'),
+                  (r'^%s\|nano::ml::params_t\|\(%s\)\|lvalue$' % (m, UPT % m), f'mlparams_{m}_ptr!'),
+                  (r'^%s\|nano::ml::params_t\|\(std::basic_string<char>\)\|' % m, f'mlparams_{m}_id!')]
+    types = [(r'^std::unique_ptr<nano::(tuner_t|solver_t|splitter_t)|^(nano::)?r(tuner|solver|splitter)_t$', 'struct nv_obj*'),
+             (r'^nano::(tuner_t|solver_t|splitter_t)$', 'struct nv_obj'), (r'^nano::ml::params_t$', 'struct nv_mlparams'),
+             (r'^nano::logger_t$', 'struct nv_logger')] + CLONE_TYPES
+    calls = CLONE_CALLS + [(r'^ctor\|nano::logger_t\|void \(const nano::logger_t &\)', '{0}'),      # logger copy: an opaque value
+                           (r'^operator=\|nano::logger_t &\(const nano::logger_t &\)', '({0} = {1})')]
+    members = [(r'^clone\|nano::clonable_t<nano::(tuner_t|solver_t|splitter_t)>|^clone\|nano::(tuner_t|solver_t|splitter_t)\b', 'nv_obj_clone')] + CLONE_MEMBERS
+    c = dict(types=types, calls=calls, members=members, hooks=[hooks.member_overload_hook(table)], self_struct='struct nv_mlparams', uf_float=False)
+    P = 'nano::ml::params_t::'
+    f = {'copy': Fn('mlparams_copy', S, 'params_t', flt=P + 'params_t', select=lambda d: astload.param_types(d) == ['const nano::ml::params_t &'], **c),
+         'assign': Fn('mlparams_assign', S, 'operator=', flt=P + 'operator=', select=lambda d: astload.param_types(d) == ['const nano::ml::params_t &'], **c)}
+    for m in ('tuner', 'solver', 'splitter'):
+        one = lambda pred: (lambda d: len(astload.param_types(d)) == 1 and pred(astload.param_types(d)[0]))
+        f[m + '_obj'] = Fn(f'mlparams_{m}_obj', S, m, flt=P + m, select=one(lambda t, m=m: t == f'const nano::{m}_t &'), **c)
+        f[m + '_move'] = Fn(f'mlparams_{m}_move', S, m, flt=P + m, select=one(lambda t, m=m: t.endswith('&&')), **c)
+        f[m + '_ptr'] = Fn(f'mlparams_{m}_ptr', S, m, flt=P + m, select=one(lambda t, m=m: t.startswith('const') and f'r{m}_t' in t), **c)
+        f[m + '_id'] = Fn(f'mlparams_{m}_id', S, m, flt=P + m, select=one(lambda t: 'string_t' in t), **c)
+    return f
+
+
+def functional_fns():
+    S = 'src/function/constraint.cpp'
+    types = [(r'^nano::constraint::functional_t$', 'struct nv_functional')] + CLONE_TYPES
+    c = dict(types=types, calls=CLONE_CALLS, members=CLONE_MEMBERS, self_struct='struct nv_functional', uf_float=False)
+    P = 'nano::constraint::functional_t::'
+    pt = lambda want: (lambda d: astload.param_types(d) == [want])
+    return {'from_function': Fn('functional_from_function', S, 'functional_t', flt=P + 'functional_t', select=pt('const nano::function_t &'), **c),
+            'from_owner': Fn('functional_from_owner', S, 'functional_t', flt=P + 'functional_t', select=pt('nano::rfunction_t &&'), **c),
+            'copy': Fn('functional_copy', S, 'functional_t', flt=P + 'functional_t', select=pt('const nano::constraint::functional_t &'), **c),
+            'assign': Fn('functional_assign', S, 'operator=', flt=P + 'operator=', select=pt('const nano::constraint::functional_t &'), **c)}
+
+
+def gboost_fns():
+    WV = r'std::vector<std::unique_ptr<nano::wlearner_t'
+    IT = r'__normal_iterator<(const )?std::unique_ptr<nano::wlearner_t'
+    types = [(r'^(nano::)?rwlearners_t$|^' + WV + r'.*>$', 'struct nv_objs'), (r'__normal_iterator<\s*std::unique_ptr<nano::wlearner_t', 'struct nv_obj*'),
+             (r'^std::unique_ptr<nano::wlearner_t|^(nano::)?rwlearner_t$', 'struct nv_obj'),      # containment model: the owner IS the object
+             (r'^nano::gboost_model_t$', 'struct nv_gboost'), (r'^nano::gboost::result_t$', 'struct nv_gbresult'),
+             (r'^nano::learner_t$', 'struct nv_base'),
+             (r'^nano::(tensor1d_t|tensor2d_t|indices_t)$|^nano::tensor_t<|^const nano::(tensor2d_t|indices_t) \*$', 'struct nv_val')] + CLONE_TYPES
+    calls = [(r'^operator!=\|.*' + IT, '({0} != {1})'), (r'^operator\+\+\|.*' + IT, '(++{0})'), (r'^operator\*\|.*' + IT, '(*{0})'),
+             (r'^operator->\|.*unique_ptr<nano::wlearner_t', '(&{0})'),
+             (r'^clone\|nano::rwlearners_t \(const nano::rwlearners_t &\)', 'wlearners_clone'),
+             (r'^operator=\|.*std::vector<std::unique_ptr<nano::wlearner_t', '({0} = {1})'),
+             (r'^operator=\|.*(tensor_t<|tensor[12]d_t|learner_t)', '({0} = {1})'),
+             (r'^ctor\|nano::learner_t\|void \(const nano::learner_t &\)', '(self->m_learner = {0}.m_learner)')] + CLONE_CALLS
+    members = [(r'^begin\|' + WV, '{*self}.p'), (r'^end\|' + WV, '({*self}.p + {*self}.n)'), (r'^size\|' + WV, '((uint64_t){*self}.n)'),
+               (r'^reserve\|' + WV, 'nv_objs_reserve({self}, {0})'), (r'^emplace_back\|' + WV, 'nv_objs_emplace_back({self}, {0})'),
+               (r'^clone\|nano::clonable_t<nano::wlearner_t>|^clone\|nano::wlearner_t\b', 'nv_obj_clone_val'),
+               (r'^operator=\|nano::learner_t', '(self->m_learner = {0}.m_learner)')] + CLONE_MEMBERS
+    c = dict(types=types, calls=calls, members=members, uf_float=False)
+    G, R = 'src/gboost/model.cpp', 'src/gboost/result.cpp'
+    pt = lambda want: (lambda d: astload.param_types(d) == [want])
+    return {'clone': Fn('wlearners_clone', 'src/wlearner/util.cpp', 'clone', flt='nano::wlearner::clone', **c),
+            'gcopy': Fn('gboost_copy', G, 'gboost_model_t', flt='nano::gboost_model_t::gboost_model_t', select=pt('const nano::gboost_model_t &'), self_struct='struct nv_gboost', **c),
+            'gassign': Fn('gboost_assign', G, 'operator=', flt='nano::gboost_model_t::operator=', select=pt('const nano::gboost_model_t &'), self_struct='struct nv_gboost', **c),
+            'gproto': Fn('gboost_prototypes_copy', G, 'prototypes', flt='nano::gboost_model_t::prototypes', select=pt('const nano::rwlearners_t &'), self_struct='struct nv_gboost', **c),
+            'rcopy': Fn('gbresult_copy', R, 'result_t', flt='nano::gboost::result_t::result_t', select=pt('const nano::gboost::result_t &'), self_struct='struct nv_gbresult', **c),
+            'rassign': Fn('gbresult_assign', R, 'operator=', flt='nano::gboost::result_t::operator=', select=pt('const nano::gboost::result_t &'), self_struct='struct nv_gbresult', **c)}
+
+
+def clone_targets():
+    out = []
+    # solver_t: the copy constructor with every accessor / setter it may go through inlined (real code, no contract in between)
+    f = solver_fns()
+    out.append(Target('solver_copy', [f[k] for k in ('copy', 'get0', 'getk', 'gett', 'id0', 'idk', 'obj0', 'objk')], HC))
+    for k in ('id0', 'idk', 'obj0', 'objk'):
+        f = solver_fns()
+        out.append(Target(f[k].cname, [f[k]], HC))
+    # ml::params_t: copy constructor, copy assignment, the twelve setters (sibling setters a function goes through are inlined)
+    keys = ['copy', 'assign'] + [f'{m}_{k}' for m in ('tuner', 'solver', 'splitter') for k in ('obj', 'move', 'ptr', 'id')]
+    for k in keys:
+        f = mlparams_fns()
+        out.append(Target(f[k].cname, [f[k]] + [f[x] for x in keys if x != k], HC))
+    # functional_t: three constructors and the copy assignment
+    for k in ('from_function', 'from_owner', 'copy', 'assign'):
+        f = functional_fns()
+        out.append(Target(f[k].cname, [f[k]], HC))
+    # weak learners: the element-wise vector clone (loop contract), then the owners with the vector clone replaced by its contract
+    out.append(Target('wlearners_clone', [gboost_fns()['clone']], HC))
+    for k in ('gcopy', 'gassign', 'gproto', 'rcopy', 'rassign'):
+        f = gboost_fns()
+        out.append(Target(f[k].cname, [f[k], f['clone']], HC, replace=['wlearners_clone']))
     return out
